@@ -151,8 +151,17 @@ def judgeSched (st0 : SchedSt) (fields : List String) : SchedSt × String :=
             | .hitServe _ _ => { ti with hitAt := some st.s.now }
             | _ => ti
           let st' := ({ st with s := s1, ticksSinceHit := (t, 0) :: st.ticksSinceHit.filter (·.1 ≠ t) }).setThread t ti
-          if consulted != mconsult then ({ st' with active := false }, s!"DIFF sched get store consulted impl={consulted} model={mconsult}")
-          else cmp st' t pos s!"get-{posOfPc (s1.pc ⟨t⟩)}" ""
+          -- monitor (C04), on the implementation's observations only: a lookup answered from the cache must be
+          -- justified by a cacheable fetch for this key still within its lifetime, or by a store record that
+          -- has not expired
+          let now := st.s.now
+          let justified : Bool :=
+            (st.fetches.any fun f => f.key == ti.key && f.cacheable &&
+              (match f.completedAt with | some c => decide (now ≤ c + f.ttl) | none => false))
+            || (match so with | .record r => decide (now ≤ r.expiredAt) | _ => false)
+          let trip := if pos = "age.enter" ∧ !justified then " TRIP served_stale" else ""
+          if consulted != mconsult then ({ st' with active := false }, s!"DIFF sched get store consulted impl={consulted} model={mconsult}{trip}")
+          else cmp st' t pos s!"get-{posOfPc (s1.pc ⟨t⟩)}" trip
       | _, _ => (st, "BADLINE sched get")
     | ["park", t, "=>", pos] =>
       match t.toNat? with
